@@ -153,7 +153,7 @@ fn braid_case(ctx: &mut Ctx, rng: &mut Rng) {
 }
 
 pub fn run(ctx: &mut Ctx) {
-    let n = ctx.by_tier(2_500u64, 100_000);
+    let n = ctx.by_tier(6_000u64, 100_000);
     ctx.random_cases("diagram", n, |c, r| diagram_case(c, r));
     ctx.random_cases("braid", n, |c, r| braid_case(c, r));
 }
